@@ -55,7 +55,7 @@ def plan(tier, seed):
     if tier == "quick":
         nn, nc, ns, scale, scripts = 6, 4, 6, 4, 90000
     else:
-        nn, nc, ns, scale, scripts = 16, 16, 16, 100, 6000000
+        nn, nc, ns, scale, scripts = 16, 16, 32, 400, 40000000
     shards = [{"kind": "nets", "slice": i, "of": nn, "scale": scale, "label": "nets%d" % i} for i in range(nn)]
     shards += [{"kind": "cross", "slice": i, "of": nc, "scale": scale, "label": "cross%d" % i} for i in range(nc)]
     shards += [{"kind": "classify", "slice": i, "of": ns, "n": scripts // ns, "label": "classify%d" % i} for i in range(ns)]
